@@ -140,3 +140,43 @@ CHECKS["C20"] = dict(
     level_text="Every system of the stated alphabet with up to 3 variables is solved by the real code and compared with exhaustive search over its assignments.",
     level_note="Trusted: the brute-force reference; systems with more than 3 variables or more constraints are not covered.",
 )
+
+# ------------------------------------------------------------------------------------------ C17
+def c17_parts(tier, seed):
+    q = tier == "quick"
+    T = "c17_text"
+    parts = [
+        P("U-LIKE", T, "fast", ["--part", "ulike", "--kstep", 3 if q else 1], require=["nontrivial"]),
+        P("U-LIKE-pin", T, "fast", ["--part", "ulikepin", "--kstep", 13 if q else 5], require=["nontrivial"]),
+        P("U-3", T, "fast", ["--part", "u3", "--wk", 2 if q else 0], require=["states"]),
+        P("U-CASTLE", T, "seq", ["--part", "ucastle"], require=["states"]),
+        P("U-EP", T, "fast", ["--part", "uep", "--sliders", 1, "--files", 17 if q else 255, "--sides", 2 if q else 3], require=["states"]),
+        P("U-PERFT", T, "seq", ["--part", "perft", "--depth", 2 if q else 3], require=["nontrivial"]),
+        P("pgn-trees", T, "seq", ["--part", "pgntrees", "--nodes", 5 if q else 7], require=["nontrivial"], deadline_frac=0.9),
+        P("g-fen", T, "seq", ["--part", "g-fen"], require=["accepted", "rejected"]),
+        P("g-fenbytes", T, "seq", ["--part", "g-fenbytes"], require=["accepted", "rejected"]),
+        P("g-move", T, "seq", ["--part", "g-move"], require=["accepted", "rejected"]),
+        P("g-pgn", T, "seq", ["--part", "g-pgn"], require=["accepted", "rejected"], deadline_frac=0.9),
+        P("g-pgnnest", T, "seq", ["--part", "g-pgnnest"], require=["accepted"]),
+        P("g-pgnbytes", T, "seq", ["--part", "g-pgnbytes"], require=["accepted", "rejected"]),
+    ]
+    return parts
+
+CHECKS["C17"] = dict(
+    parts=c17_parts,
+    rule="states = positions (move-text parts), written game trees x annotation pattern (pgn-trees) or garbage inputs (g-*), each generated once by nested enumeration; "
+         "transitions = moves converted and parsed back / parser calls; non-trivial = position where a disambiguated piece move or a promotion occurs, tree with >= 3 nodes "
+         "and annotations, or a garbage input that the parser accepted (and whose result was then exercised)",
+    alphabet="(1) positions U-LIKE (3 like pieces, optional pinning rook), U-3, U-CASTLE, U-EP slice, U-PERFT x every legal move x {short, long, UCI}; (2) all ordered game trees "
+             "with <= N move nodes over the first 3 legal moves per position from 3 roots x 4 annotation patterns (none, comments, NAGs, pre+post comments with syntax characters+NAGs); "
+             "(3) token-level garbage for FEN (6 field alphabets, full product), move text and PGN, nesting families up to 4096, every single-byte substitution of valid FENs/PGNs, truncations",
+    oracle="parsed == original (move / tree incl. comments and NAGs); no two legal moves share a short form; garbage: returns or throws ChessParseError/ChessError within the time "
+           "budget with no ASan/UBSan report; an accepted FEN has one king each, no capturable king, and can be hashed, move-generated and written back",
+    bound=dict(quick="U-LIKE kings on every 3rd square, U-PERFT depth 2, trees <= 5 nodes, move tokens <= 3, PGN tokens <= 4",
+               thorough="U-LIKE all king squares, U-PERFT depth 3, trees <= 7 nodes, move tokens <= 4, PGN tokens <= 5"),
+    assumptions=["UCI command-line garbage is exercised by the C05 session enumeration (commands with missing / wrong / huge arguments), not here",
+                 "arbitrary 4 KB random strings are replaced by token-level exhaustive enumeration plus complete single-byte mutation"],
+    technique="bounded-exhaustive enumeration of positions x moves, of small game trees and of token-level / single-byte-mutated inputs on the real parsers and writers",
+    level_text="All inputs of the stated finite families are pushed through the real writers and parsers; round trips are compared exactly and garbage runs under ASan/UBSan with a watchdog.",
+    level_note="Trusted: harness PGN writer (standard movetext with numbers, comments in braces, $NAGs, parenthesised variations) and the oracle's legal move lists.",
+)
